@@ -321,7 +321,36 @@ pub fn install_script(segs: Vec<Seg>) -> Arc<Mutex<Log>> {
     log
 }
 
+/// An earlier response on this thread whose body could not be read to its end: read as text / bytes it fails
+/// after part of the body was delivered. Whatever that failure leaves behind on the thread is no part of the
+/// next response (seed C18-seed11: a per-thread buffer of `text()` that is only emptied on success).
+pub fn fail_a_body_read_on_this_thread() {
+    static WAY: std::sync::atomic::AtomicUsize = std::sync::atomic::AtomicUsize::new(0);
+    let way = WAY.fetch_add(1, std::sync::atomic::Ordering::Relaxed);
+    let wire: &[u8] = match way % 3 {
+        0 => b"HTTP/1.1 200 OK\r\nContent-Type: text/plain\r\nContent-Length: 200\r\n\r\nSTALE-BYTES-OF-AN-EARLIER-RESPONSE ",
+        1 => b"HTTP/1.1 200 OK\r\nContent-Type: text/html; charset=utf-8\r\nTransfer-Encoding: chunked\r\n\r\n23\r\nSTALE-BYTES-OF-AN-EARLIER-RESPONSE \r\n10\r\nhalf",
+        _ => b"HTTP/1.1 200 OK\r\nContent-Length: 64\r\n\r\n\xfe\xffSTALE-BYTES-OF-AN-EARLIER-RESPONSE",
+    };
+    let _log = install_script(vec![Seg::Data(wire.to_vec())]);
+    let _ = catch_unwind(AssertUnwindSafe(|| {
+        let resp = attohttpc::get("http://earlier.test/stale").send();
+        if let Ok(resp) = resp {
+            match (way / 3) % 4 {
+                0 => drop(resp.text()),
+                1 => drop(resp.text_with(attohttpc::charsets::UTF_8)),
+                2 => drop(resp.text_utf8()),
+                _ => drop(resp.bytes()),
+            }
+        }
+    }));
+    verif_hooks::clear_dial_factory();
+}
+
 pub fn run_resp(case: &RespCase) -> RespOut {
+    if matches!(&case.reads, Reads::Drain(h) if is_text_drain(*h)) && case.segs.len() % 3 == 1 {
+        fail_a_body_read_on_this_thread();
+    }
     let log = install_script(case.segs.clone());
     let max_read = match &case.reads {
         Reads::Sizes(ns) => ns.iter().copied().max().unwrap_or(0),
